@@ -451,99 +451,6 @@ namespace
     return "";
   }
 
-  // how 'istream >> unsigned long' (String::parse(Index&)) reads a token: 0 = no number, 1 = value, 2 = negative (wraps
-  // to a huge value), 3 = overflow (fails)
-  int prefix_index(const std::string& s, unsigned long long& v)
-  {
-    std::size_t i = 0; bool neg = false;
-    if(i < s.size() && (s[i] == '+' || s[i] == '-')) { neg = (s[i] == '-'); ++i; }
-    std::size_t j = i; while(j < s.size() && s[j] >= '0' && s[j] <= '9') ++j;
-    if(j == i) return 0;
-    errno = 0;
-    v = std::strtoull(s.substr(i, j - i).c_str(), nullptr, 10);
-    if(errno == ERANGE) return 3;
-    return neg ? (v == 0 ? 1 : 2) : 1;
-  }
-
-  bool attr_index(const c11m::Attr* a, unsigned long long& x)
-  {
-    if(a == nullptr) return false;
-    std::string v = a->val; while(!v.empty() && c11m::is_ws(v[0])) v.erase(v.begin());
-    return prefix_index(v, x) == 1;
-  }
-
-  // input-derived tags naming the structural fact that a known finding depends on
-  void input_tags(const c11m::Doc& d, std::vector<std::string>& tags)
-  {
-    using namespace c11m;
-    if(has_dup_chart_name(d)) tags.push_back("dup_chart_name");
-    // root shape dimension
-    int sdim = 0;
-    std::vector<unsigned long long> msz;
-    for(auto& l : d.lines)
-    {
-      if(l.kind != L_OPEN) continue;
-      if(sdim == 0) if(const Attr* a = l.attr("mesh")) { std::size_t p = a->val.rfind(':'); if(p != std::string::npos && p >= 1) sdim = a->val[p - 1] - '0'; }
-      if(l.name == "Mesh" && msz.empty()) if(const Attr* a = l.attr("size")) for(auto& t : tokens(d.text, a->vbeg, a->vend)) { unsigned long long x = 0; if(to_u64(d.text.substr(t.beg, t.end - t.beg), x)) msz.push_back(x); }
-    }
-    bool map_dim = false, map_idx = false, tri_idx = false, attr_dim = false, bez_ori = false, neg_size = false, nonmanifold = false, topo_parent = false;
-    std::map<std::pair<int, std::pair<unsigned long long, unsigned long long>>, int> edge_use;
-    for(std::size_t i = 0; i < d.lines.size(); ++i)
-    {
-      const Line& l = d.lines[i];
-      if(l.kind == L_OPEN || l.kind == L_CLOSED)
-      {
-        if(l.name == "Mapping") { unsigned long long x = 0; if(attr_index(l.attr("dim"), x) && sdim > 0 && x == (unsigned long long)(sdim + 1)) map_dim = true; }
-        if(l.name == "Attribute") if(const Attr* a = l.attr("dim")) { unsigned long long x = 0; std::string v = a->val; if((to_u64(v, x) && x > 2147483647ull) || (!v.empty() && v[0] == '-')) attr_dim = true; }
-        if(l.name == "Bezier") if(const Attr* a = l.attr("orientation")) { if(a->val != "1" && a->val != "-1") bez_ori = true; }
-        if(l.name == "Partition") if(const Attr* a = l.attr("size")) if(a->val.find('-') != std::string::npos) neg_size = true;
-        if(l.name == "MeshPart") if(const Attr* a = l.attr("topology")) if(a->val.find("parent") != std::string::npos) topo_parent = true;
-      }
-      if(l.kind == L_CONTENT && l.parent >= 0)
-      {
-        const Line& p = d.lines[std::size_t(l.parent)];
-        if(p.name == "Mapping" || p.name == "Triangles")
-        {
-          unsigned long long bound = ~0ull;
-          if(p.name == "Mapping") { unsigned long long x = 0; if(attr_index(p.attr("dim"), x) && x < msz.size()) bound = msz[x]; }
-          else if(p.parent >= 0) { unsigned long long x = 0; if(attr_index(d.lines[std::size_t(p.parent)].attr("verts"), x)) bound = x; }
-          std::vector<unsigned long long> tri;
-          for(auto& t : tokens(d.text, l.beg, l.end))
-          {
-            std::string s = d.text.substr(t.beg, t.end - t.beg); unsigned long long x = 0;
-            int pr = prefix_index(s, x);
-            bool oob = (pr == 2) || (pr == 1 && x >= bound);
-            if(oob) { if(p.name == "Mapping") map_idx = true; else tri_idx = true; }
-            if(pr == 1) tri.push_back(x);
-          }
-          if(p.name == "Triangles" && tri.size() == 3)
-            for(int e = 0; e < 3; ++e) { auto a = tri[std::size_t(e)], b = tri[std::size_t((e + 1) % 3)]; if(++edge_use[{l.parent, {std::min(a, b), std::max(a, b)}}] > 2 || a == b) nonmanifold = true; }
-        }
-      }
-    }
-    if(map_dim) tags.push_back("mapping_dim_oob");
-    if(map_idx) tags.push_back("mapping_index_oob");
-    if(tri_idx) tags.push_back("surfmesh_index_oob");
-    if(attr_dim) tags.push_back("attr_dim_not_int");
-    if(bez_ori) tags.push_back("bezier_orientation_odd");
-    if(neg_size) tags.push_back("partition_size_negative");
-    if(nonmanifold) tags.push_back("surfmesh_nonmanifold");
-    if(topo_parent) tags.push_back("topology_parent");
-    // a Partition none of whose patches lists an element
-    for(std::size_t i = 0; i < d.lines.size(); ++i)
-    {
-      const Line& l = d.lines[i];
-      if((l.kind != L_OPEN && l.kind != L_CLOSED) || l.name != "Partition") continue;
-      bool any = false;
-      if(l.kind == L_OPEN) for(std::size_t j = i + 1; j < d.lines.size(); ++j)
-      {
-        const Line& q = d.lines[j];
-        if(q.kind == L_TERM && q.name == "Partition") break;
-        if(q.kind == L_CONTENT) { any = true; break; }
-      }
-      if(!any) { tags.push_back("partition_without_elements"); break; }
-    }
-  }
 }
 
 VH_FAMILY(mutants)
@@ -627,7 +534,7 @@ VH_FAMILY(mutants)
   c.tag(b->corpus ? "base:corpus" : "base:gen");
   c.tag("mut:" + m.kind);
   if(m.must_reject) c.tag("must-reject");
-  { std::vector<std::string> it; input_tags(md, it); for(auto& t : it) c.tag(t); }
+  { std::vector<std::string> it; c11m::input_tags(md, it); for(auto& t : it) c.tag(t); }
   c.sig = std::string("mesh|") + ops(b->hint).name + "|" + m.kind + (m.must_reject ? "|MR" : "");
   c.desc = vh::J().kv("base", b->name).kv("mutation", m.kind).kv("must_reject", m.must_reject).kv("note", m.note).kv("bytes", (unsigned long long)m.text.size())
     .kv("text", m.text.size() <= 1500 ? m.text : std::string("(large; replay the case with --verbose to print it)")).str();
